@@ -245,3 +245,39 @@ func OnceFunc(f func()) func() {
 	var o Once
 	return func() { o.Do(f) }
 }
+
+// Cond: Wait releases L, blocks until a Signal/Broadcast issued after it started waiting, re-acquires L.
+type Cond struct {
+	L       Locker
+	waiters []*bool
+}
+
+func NewCond(l Locker) *Cond { return &Cond{L: l} }
+
+func (c *Cond) Wait() {
+	woken := false
+	c.waiters = append(c.waiters, &woken)
+	c.L.Unlock()
+	vrt.Op(func() bool { return woken }, 0, "Cond.Wait")
+	c.L.Lock()
+}
+
+func (c *Cond) Signal() {
+	vrt.Op(nil, 0, "Cond.Signal")
+	if len(c.waiters) > 0 {
+		*c.waiters[0] = true
+		c.waiters = c.waiters[1:]
+		vrt.Progress()
+	}
+}
+
+func (c *Cond) Broadcast() {
+	vrt.Op(nil, 0, "Cond.Broadcast")
+	for _, w := range c.waiters {
+		*w = true
+	}
+	if len(c.waiters) > 0 {
+		vrt.Progress()
+	}
+	c.waiters = nil
+}
